@@ -69,7 +69,7 @@ def make_optimize_function(opt):
 
 
 def gen_opt(tp: Tape):
-    k = tp.weighted([("default", 5), ("off", 3), ("multi", 4), ("simple", 2), ("fuse_all", 1)])
+    k = tp.weighted([("default", 5), ("off", 3), ("multi", 5), ("simple", 1), ("fuse_all", 1)])
     opt = dict(kind=k)
     if k == "multi":
         if tp.coin():
@@ -79,57 +79,98 @@ def gen_opt(tp: Tape):
     return opt
 
 
+class Session:
+    """One simulated run: build a program once, compute it one or more times."""
+
+    def __init__(self, case, sched=None, body_wrapper=None, spec_kwargs=None):
+        self.case = case
+        self.sched = sched
+        self.body_wrapper = body_wrapper
+        self.spec_kwargs = spec_kwargs or {}
+        self._stack = None
+
+    def __enter__(self) -> RunResult:
+        import contextlib
+
+        case = self.case
+        rr = RunResult()
+        self.rr = rr
+        H.reset_globals(case.get("py_seed", 0))
+        tape = Tape(case["sched_seed"]) if self.sched is None else Tape(replay=self.sched)
+        sim = Sim(tape, case.get("sim"))
+        rr.sim, rr.tape = sim, tape
+        sim.body_wrapper = self.body_wrapper
+        store = simstore.SimStore(name="inter")
+        src = simstore.SimStore(name="src")
+        sim.attach_store(store)
+        sim.attach_store(src)
+        rr.store, rr.src_store = store, src
+        rr.spec = H.make_spec(store, allowed_mem=case.get("allowed_mem", 200_000_000),
+                              reserved_mem=case.get("reserved_mem", 0), compressor=case.get("compressor"),
+                              **self.spec_kwargs)
+        rr.case = case
+        self._stack = contextlib.ExitStack()
+        self._stack.enter_context(activated(sim))
+        self._stack.enter_context(H.quiet())
+        self._stack.enter_context(H.single_job_labels(sim))
+        return rr
+
+    def __exit__(self, *a):
+        return self._stack.__exit__(*a)
+
+
+def build_program(rr: RunResult, select_outputs=None):
+    prog = rr.case["prog"]
+    rr.src_store.sh.tracing = False
+    try:
+        rr.built = G.build(prog, rr.spec, rr.src_store)
+    except Exception as e:  # noqa: BLE001 - input creation failed
+        rr.phase, rr.exc, rr.exc_tb = "build", e, traceback.format_exc()
+        rr.built = None
+        return False
+    finally:
+        rr.src_store.sh.tracing = True
+    outs = select_outputs(prog, rr.built) if select_outputs else prog["outputs"]
+    rr.requested = [o for o in outs if rr.built.values[o] is not None]
+    rr.arrays = [rr.built.values[o] for o in rr.requested]
+    return bool(rr.arrays)
+
+
+def compute(rr: RunResult, opt=None, exec_cfg=None, arrays=None, compute_kwargs=None, callbacks_extra=None):
+    """One cubed.compute under the simulator. Returns (results|None, phase|None, exc|None)."""
+    import cubed
+
+    sim = rr.sim
+    st = H.ExecState()
+    rr.st = st
+    executor = H.make_executor(sim, exec_cfg or rr.case["exec"], st)
+    cb = H.make_callback(sim)
+    rr.cb = cb
+    og, of = make_optimize_function(opt if opt is not None else rr.case.get("opt"))
+    kw = dict(compute_kwargs or {})
+    arrays = rr.arrays if arrays is None else arrays
+    try:
+        res = cubed.compute(*arrays, executor=executor, callbacks=[cb] + list(callbacks_extra or []),
+                            optimize_graph=og, optimize_function=of, **kw)
+        return res, None, None
+    except (SimHang, SimStepLimit) as e:
+        e._tb = traceback.format_exc()
+        return None, "execute", e
+    except Exception as e:  # noqa: BLE001
+        e._tb = traceback.format_exc()
+        return None, ("execute" if st.entered else "plan"), e
+
+
 def run_program(case, sched=None, pre_compute=None, body_wrapper=None, compute_kwargs=None,
                 callbacks_extra=None, select_outputs=None) -> RunResult:
     """Build and compute case['prog'] under case['exec'], case['sim'], case['opt']."""
-    import cubed
-
-    rr = RunResult()
-    H.reset_globals(case.get("py_seed", 0))
-    tape = Tape(case["sched_seed"]) if sched is None else Tape(replay=sched)
-    sim = Sim(tape, case.get("sim"))
-    rr.sim = sim
-    rr.tape = tape
-    sim.body_wrapper = body_wrapper
-    store = simstore.SimStore(name="inter")
-    src = simstore.SimStore(name="src")
-    sim.attach_store(store)
-    sim.attach_store(src)
-    rr.store, rr.src_store = store, src
-    prog = case["prog"]
-    spec = H.make_spec(store, allowed_mem=case.get("allowed_mem", 200_000_000),
-                       reserved_mem=case.get("reserved_mem", 0), compressor=case.get("compressor"))
-    rr.spec = spec
-    st = H.ExecState()
-    rr.st = st
-    with activated(sim), H.quiet(), H.single_job_labels(sim):
-        src.sh.tracing = False
-        try:
-            rr.built = G.build(prog, spec, src)
-        except Exception as e:  # noqa: BLE001 - input creation failed
-            rr.phase, rr.exc, rr.exc_tb = "build", e, traceback.format_exc()
-            return rr
-        src.sh.tracing = True
-        outs = select_outputs(prog, rr.built) if select_outputs else prog["outputs"]
-        rr.requested = [o for o in outs if rr.built.values[o] is not None]
-        rr.arrays = [rr.built.values[o] for o in rr.requested]
-        if not rr.arrays:
+    with Session(case, sched, body_wrapper=body_wrapper) as rr:
+        if not build_program(rr, select_outputs):
             return rr
         if pre_compute is not None:
             pre_compute(rr)
-        executor = H.make_executor(sim, case["exec"], st)
-        cb = H.make_callback(sim)
-        rr.cb = cb
-        og, of = make_optimize_function(case.get("opt"))
-        kw = dict(compute_kwargs or {})
-        try:
-            rr.results = cubed.compute(*rr.arrays, executor=executor, callbacks=[cb] + list(callbacks_extra or []),
-                                       optimize_graph=og, optimize_function=of, **kw)
-        except (SimHang, SimStepLimit) as e:
-            rr.phase, rr.exc, rr.exc_tb = "execute", e, traceback.format_exc()
-        except Exception as e:  # noqa: BLE001
-            rr.phase = "execute" if st.entered else "plan"
-            rr.exc, rr.exc_tb = e, traceback.format_exc()
+        rr.results, rr.phase, rr.exc = compute(rr, compute_kwargs=compute_kwargs, callbacks_extra=callbacks_extra)
+        rr.exc_tb = getattr(rr.exc, "_tb", None)
     return rr
 
 
